@@ -19,7 +19,8 @@ Three families of cases (field 'fam'):
          snapshot shows ehlo_as / have_mailfrom / have_rcptto), MAIL, RCPT, DATA must be refused, EHLO must
          not list STARTTLS, a second STARTTLS must be refused.
  auth    (c,d) one AUTH exchange (mechanism x shape) on a channel (clear / after STARTTLS / immediate TLS)
-         under a gate (none, before-ehlo, after-success, in-transaction, retry) with generated Unicode
+         under a gate (none, before-ehlo, after-success, in-transaction, retry, history-<step>: AUTH ok, then
+         EHLO | HELO | RSET | a completed transaction | STARTTLS+EHLO, then another AUTH) with generated Unicode
          credentials and a scripted application verdict (235 / 535 / 454).  Oracle table in judge_auth().
  client  (e) the harness server answers STARTTLS with `220 ready` + injected reply bytes in ONE clear
          segment, handshakes, and answers inside TLS with recognisable texts; every Reply the client
@@ -65,7 +66,8 @@ RULE = ('tls case = (prefix in {none, EHLO, EHLO+MAIL, EHLO+MAIL+RCPT, EHLO+AUTH
         'auth case = (mechanism in {PLAIN, LOGIN, CRAM-MD5, none}) x (shape: initial response, challenge/response, '
         'lower-case, cancel, bad base64 x4, "=", empty response, bare AUTH, unknown mechanism, extra arguments, '
         'no-NUL / non-UTF-8 payload ...) x channel x gate {none, before-ehlo, after-success, in-transaction, '
-        'in-transaction-rcpt, retry-535, retry-454} x verdict {235, 535, 454} x target {Server+probe, '
+        'in-transaction-rcpt, retry-535, retry-454, history-{ehlo, helo, rset, transaction, starttls} x first '
+        'mechanism x second identity {same, different}} x verdict {235, 535, 454} x target {Server+probe, '
         'SmtpEdge+SmtpSession} x credentials from a seeded generator (ASCII, BMP, astral, combining marks, '
         'SASLprep-sensitive, spaces, long; authzid present/absent; NUL-free); client case = injected reply shape. '
         'non-trivial = tls/client case with a non-empty injected payload or script B with a non-empty prefix, or an '
@@ -83,7 +85,7 @@ REQUIRED_HITS = ['tls-reply-count-compared', 'tls-first-reply-checked', 'encrypt
                  'sentinel-callbacks-checked', 'post-handshake-state-probed', 'handshake-refused-plaintext',
                  'auth-clear-session-gate-checked', 'auth-sequence-gate-checked', 'auth-malformed-survival-checked',
                  'auth-credentials-compared', 'authed-flag-checked', 'edge-session-auth-checked',
-                 'auth-retry-checked', 'client-tls-replies-compared']
+                 'auth-retry-checked', 'auth-after-success-history-checked', 'client-tls-replies-compared']
 SHARDS = {'quick': 8, 'thorough': 16}
 BUDGET = {'quick': 45, 'thorough': 700}
 EXHAUSTIVE = {'quick': False, 'thorough': False}
@@ -102,7 +104,7 @@ M_AUTH_CLEAR = 'auth/plaintext-mechanism-accepted-on-clear-session'
 M_AUTH_BARE = 'auth/bare-AUTH-ends-session'
 M_AUTH_B64 = 'auth/non-base64-characters-ignored'
 M_AUTH_BEFORE_EHLO = 'auth/accepted-before-ehlo'
-M_AUTH_AFTER_OK = 'auth/accepted-after-successful-auth'
+M_AUTH_AFTER_OK = 'auth/accepted-after-successful-auth'      # + '/after-<EHLO|HELO|RSET|transaction|STARTTLS>'
 M_AUTH_IN_TXN = 'auth/accepted-inside-transaction'
 M_AUTH_EARLY = 'auth/authenticated-without-235'
 M_AUTH_CREDS = 'auth/credentials-altered'
@@ -366,6 +368,13 @@ class Probe(object):
         raise AttributeError(name)
 
 
+class StubQueue(object):
+    """Accepts every envelope (only needed so that a completed transaction on the edge target gets its 250)."""
+
+    def enqueue(self, envelope):
+        return [(envelope, 'stub-id')]
+
+
 class RecSession(SmtpSession):
     """The stock SmtpSession, only remembering its instances so the harness can read session.auth."""
     instances = []
@@ -420,7 +429,7 @@ class ServerSession(object):
             self.box = {'trace': [], 'verdicts': list(verdicts), 'credcheck': credcheck}
             self.trace = self.box['trace']
             del RecSession.instances[:]
-            edge = SmtpEdge(None, None, validator_class=make_validators(self.box), auth=auth, context=sctx(),
+            edge = SmtpEdge(None, StubQueue(), validator_class=make_validators(self.box), auth=auth, context=sctx(),
                             tls_immediately=imm, session_class=RecSession)
 
             def body():
@@ -597,6 +606,8 @@ SOFT_SHAPES = {'LOGIN': ['equals', 'empty-response', 'bad-b64-illegal-only'], 'C
 B64_SHAPES = ('bad-b64-illegal-only', 'bad-b64-embedded', 'bad-b64-embedded-resp', 'extra-args', 'two-b64-joined')
 CHANNELS = ['clear', 'starttls', 'immediate']
 GATES = ['before-ehlo', 'after-success', 'in-transaction', 'in-transaction-rcpt', 'retry-535', 'retry-454']
+# multi-step histories after a successful AUTH, each followed by another AUTH that must still be refused
+HISTORY_STEPS = {'ehlo': 'EHLO', 'helo': 'HELO', 'rset': 'RSET', 'transaction': 'transaction', 'starttls': 'STARTTLS'}
 PLAINTEXT_MECHS = ('PLAIN', 'LOGIN')
 
 
@@ -709,6 +720,20 @@ def auth_grid(rnd, draws):
                         if target == 'edge' and gate in ('in-transaction-rcpt', 'retry-454'):
                             continue
                         yield case(mech, OK_SHAPES[mech][0], channel, gate=gate, target=target)
+        # histories after a successful AUTH: <step>, then another AUTH (same / different identity)
+        n = 0
+        for channel in CHANNELS:
+            for step in sorted(HISTORY_STEPS):
+                if step == 'starttls' and channel != 'clear':
+                    continue          # an upgrade is only possible from a clear session
+                for mech in ('PLAIN', 'LOGIN', 'CRAM-MD5'):
+                    if channel == 'clear' and step != 'starttls' and mech in PLAINTEXT_MECHS:
+                        continue      # still clear: PLAIN/LOGIN would be refused for that reason alone
+                    for second in ('same', 'different'):
+                        for target in ('server', 'edge'):
+                            n += 1
+                            first = 'CRAM-MD5' if channel == 'clear' else ('PLAIN', 'LOGIN', 'CRAM-MD5')[n % 3]
+                            yield history_case(rnd, mech, channel, step, first, second, target)
         # every credential kind once through each mechanism on an encrypted channel
         for kind in CRED_KINDS:
             for mech in ('PLAIN', 'LOGIN', 'CRAM-MD5'):
@@ -716,7 +741,31 @@ def auth_grid(rnd, draws):
                            target='edge' if kind in ('bmp', 'saslprep') else 'server')
 
 
+def history_case(rnd, mech, channel, step, first, second, target):
+    c = {'fam': 'auth', 'mech': mech, 'shape': OK_SHAPES[mech][0], 'channel': channel, 'gate': 'history-' + step,
+         'verdict': '235', 'target': target, 'cred': gen_cred(rnd), 'first_mech': first, 'second': second}
+    c['cred2'] = gen_cred(rnd)
+    return c
+
+
+def random_history(rnd):
+    channel = rnd.choice(CHANNELS)
+    step = rnd.choice(sorted(HISTORY_STEPS) if channel == 'clear' else
+                      [k for k in sorted(HISTORY_STEPS) if k != 'starttls'])
+    if channel == 'clear' and step != 'starttls':
+        mech = 'CRAM-MD5'
+    else:
+        mech = rnd.choice(['PLAIN', 'LOGIN', 'CRAM-MD5'])
+    first = 'CRAM-MD5' if channel == 'clear' else rnd.choice(['PLAIN', 'LOGIN', 'CRAM-MD5'])
+    c = history_case(rnd, mech, channel, step, first, rnd.choice(['same', 'different']),
+                     rnd.choice(['server', 'edge']))
+    c['shape'] = rnd.choice(OK_SHAPES[mech])
+    return c
+
+
 def random_auth(rnd):
+    if rnd.random() < 0.15:
+        return random_history(rnd)
     mech = rnd.choice(['PLAIN', 'PLAIN', 'LOGIN', 'LOGIN', 'CRAM-MD5', '-'])
     if mech == '-':
         shape = rnd.choice(BAD_SHAPES['-'])
@@ -1047,7 +1096,9 @@ def run_auth_case(case, R):
                                                                       'target'))
     cred = case['cred']
     klass = shape_class(mech, shape)
-    key = ('auth', mech, shape, channel, gate, verdict, target, cred['kind'], bool(cred['zid']))
+    hist = gate[len('history-'):] if gate.startswith('history-') else None
+    key = ('auth', mech, shape, channel, gate, verdict, target, cred['kind'], bool(cred['zid']),
+           case.get('first_mech'), case.get('second'))
     R.observe('auth-case', key[:7])
     R.observe('credential', (cred['cid'], cred['secret'], cred['zid']))
     happy = klass == 'ok' and verdict == '235' and gate == 'none' and channel != 'clear' and shape != 'lower-case'
@@ -1055,7 +1106,7 @@ def run_auth_case(case, R):
         R.nontrivial(key)
     verdicts = {'none': [verdict], 'before-ehlo': [verdict], 'after-success': ['235', verdict],
                 'in-transaction': [verdict], 'in-transaction-rcpt': [verdict],
-                'retry-535': ['535', '235'], 'retry-454': ['454', '235']}[gate]
+                'retry-535': ['535', '235'], 'retry-454': ['454', '235']}.get(gate, ['235', verdict])
     S = ServerSession('immediate' if channel == 'immediate' else 'starttls', AUTH_MECHS, target,
                       verdicts=verdicts, credcheck=CredCheck(cred['cid'], cred['secret']))
     w = S.w
@@ -1106,9 +1157,34 @@ def run_auth_case(case, R):
         s = S.edge_session()
         return None if s is None else s.auth
 
-    first_line, responses = auth_script(mech, shape, cred)
     exs = []
     pre = None
+    first_identity = None
+    cred_used = cred
+    if hist:
+        # history: a successful AUTH (first identity), one more step, then the AUTH under test
+        g1, g2 = auth_script(case['first_mech'], 'challenge', cred)
+        pre = exchange(w, g1, g2)
+        if code(pre['final']) != '235':
+            return abort('history: the first AUTH (%s) was not accepted: %r' % (case['first_mech'], pre['final']))
+        first_identity = authed()
+        if hist == 'ehlo':
+            ok = code(w.cmd(b'EHLO again.test')) == '250'
+        elif hist == 'helo':
+            ok = code(w.cmd(b'HELO again.test')) == '250'
+        elif hist == 'rset':
+            ok = code(w.cmd(b'RSET')) == '250'
+        elif hist == 'transaction':
+            ok = (code(w.cmd(b'MAIL FROM:<txn@x>')) == '250' and code(w.cmd(b'RCPT TO:<txnr@x>')) == '250' and
+                  code(w.cmd(b'DATA')) == '354' and code(w.cmd(b'Subject: t\r\n\r\nbody\r\n.')) == '250')
+        else:
+            ok = (code(w.cmd(b'STARTTLS')) == '220' and w.handshake() and code(w.cmd(b'EHLO tls.test')) == '250')
+            encrypted = True
+        if not ok:
+            return abort('history step %s not accepted' % hist)
+        if case['second'] == 'different':
+            cred_used = case['cred2']
+    first_line, responses = auth_script(mech, shape, cred_used)
     if gate == 'after-success':
         g1, g2 = auth_script(mech, good_shape(mech), cred)
         pre = exchange(w, g1, g2)
@@ -1134,8 +1210,11 @@ def run_auth_case(case, R):
     calls = [e for e in S.trace if e['cb'] == 'AUTH']
     wit = {'case': case, 'auth_line': first_line, 'exchanges': [e['steps'] for e in exs], 'noop': noop, 'quit': quit_,
            'auth_callbacks': calls, 'authed_before': authed_before, 'authed_after': authed_after,
-           'session_ended_before_noop': ended_before_noop, 'handle_end': end, 'supplied': cred}
+           'session_ended_before_noop': ended_before_noop, 'handle_end': end, 'supplied': cred,
+           'first_identity': first_identity}
     desc = '%s/%s on %s gate=%s verdict=%s target=%s' % (mech, shape, channel, gate, verdict, target)
+    if hist:
+        desc += ' (first AUTH %s, second identity %s)' % (case['first_mech'], case['second'])
     final, first = ex['final'], ex['first']
     new_calls = calls_after - calls_before
 
@@ -1165,6 +1244,24 @@ def run_auth_case(case, R):
         return
     if not encrypted:
         R.hit('auth-clear-session-nonplaintext-mechanism')
+
+    # ---- histories after a successful AUTH: still refused, application not asked, first identity kept
+    if hist:
+        R.hit('auth-after-success-history-checked')
+        R.observe('auth-history', (hist, channel, case['first_mech'], mech, case['second'], target))
+        problems = []
+        if not is_err(first) or new_calls:
+            problems.append('after AUTH ok + %s another AUTH was answered %r (final %r), application AUTH callback '
+                            'invoked %d more time(s)' % (HISTORY_STEPS[hist], first, final, new_calls))
+        if target == 'server':
+            if not authed_after:
+                problems.append('server.authed is %r afterwards' % (authed_after,))
+        elif authed_after != first_identity:
+            problems.append('SmtpSession.auth is %r afterwards, the first (accepted) identity was %r'
+                            % (authed_after, first_identity))
+        if problems:
+            V(M_AUTH_AFTER_OK + '/after-' + HISTORY_STEPS[hist], '; '.join(problems)[:500])
+        return
 
     # ---- sequence gates
     if gate in ('before-ehlo', 'after-success', 'in-transaction', 'in-transaction-rcpt'):
